@@ -127,9 +127,7 @@ theorem replay_inv {g : Graph V} (hinv : Inv F g) (cs : List (Call V)) : Inv F (
 /-- by C11's `read_fresh`: an artifact is the from-scratch value of the state it is applied to -/
 theorem artifact_spec {g : Graph V} (hinv : Inv F g) (i : Nat) : (seqStep F g (.artifact i)).2 = .val (Spec F g i) := by
   simp only [seqStep]
-  obtain ⟨rank, hwf⟩ := hinv.wf
-  have hok := Eval_ok i g hinv
-  rw [val_eq_spec hok.inv hok.fresh, Spec_static hwf hok.evo.static]
+  rw [(Eval_ok i g hinv).value]
 
 /-- the sequential specification changes parameters, processors and wiring only by `update` -/
 theorem seqStep_static {g : Graph V} (c : Call V) (h : ∀ p v, c ≠ .update p v) : SameStatic (seqStep F g c).1 g := by
